@@ -17,12 +17,23 @@ pub struct Plan {
     pub armed: u32,
     pub phases: Vec<Phase>,
     pub bounds: Vec<String>,
+    /// every tree explored (for the reachable-transition count)
+    pub trees: std::sync::Arc<std::sync::Mutex<Vec<std::sync::Arc<TreeSpec>>>>,
+}
+
+thread_local! {
+    static TREES: std::cell::RefCell<Vec<std::sync::Arc<TreeSpec>>> = const { std::cell::RefCell::new(Vec::new()) };
+}
+
+pub fn take_trees() -> Vec<std::sync::Arc<TreeSpec>> {
+    TREES.with(|t| std::mem::take(&mut *t.borrow_mut()))
 }
 
 fn tree_tasks(specs: Vec<TreeSpec>) -> Vec<TaskFn> {
     let mut tasks: Vec<TaskFn> = Vec::new();
     for spec in specs {
         let spec = Arc::new(spec);
+        TREES.with(|t| t.borrow_mut().push(spec.clone()));
         for i in 0..spec.alphabet.len() {
             let sp = spec.clone();
             tasks.push(Box::new(move |ck: &mut Checker| run_tree(ck, &sp, Some(i))));
@@ -131,10 +142,16 @@ pub fn status_trees(cfgs: &[u8], cap: u32, k: usize, depth: usize, extra: usize,
 }
 
 pub fn chunk_trees(depth: usize, extra: usize) -> Vec<TreeSpec> {
-    chunk_contexts()
+    let mut v: Vec<TreeSpec> = chunk_contexts()
         .into_iter()
         .map(|ctx| TreeSpec { lane: Lane::new(Entry::Chunk, 0, 0), ctx, alphabet: chunk_alphabet(), depth, extra, companions: Companions::None })
-        .collect()
+        .collect();
+    // every digit count in between, shallower (so that every state of the digit counter is entered)
+    for n in 1..=13usize {
+        let ctx: Vec<u8> = (0..n).map(|i| b"1aF09"[i % 5]).collect();
+        v.push(TreeSpec { lane: Lane::new(Entry::Chunk, 0, 0), ctx, alphabet: chunk_alphabet(), depth: depth.min(3), extra, companions: Companions::None });
+    }
+    v
 }
 
 fn phase(label: &str, backend: Backend, tasks: Vec<TaskFn>) -> Phase {
@@ -200,7 +217,8 @@ fn stretched(p: &mut Plan, tag: &str, hdr_lanes: &[(Entry, u8)], ks: &[usize], d
 
 pub fn plan(prop: &str, tier: Tier) -> Option<Plan> {
     let q = tier == Tier::Quick;
-    let mut p = Plan { armed: 0, phases: Vec::new(), bounds: Vec::new() };
+    let mut p = Plan { armed: 0, phases: Vec::new(), bounds: Vec::new(), trees: Default::default() };
+    let _ = take_trees();
     let all_hdr = header_lanes(true);
     let def_hdr = header_lanes(false);
     let multi_req = [0u8, C_MULTI_REQ];
@@ -486,5 +504,6 @@ pub fn plan(prop: &str, tier: Tier) -> Option<Plan> {
         }
         _ => return None,
     }
+    *p.trees.lock().unwrap() = take_trees();
     Some(p)
 }
